@@ -100,7 +100,8 @@ def run_store(ctx, thorough, rng):
     ctx.bump("disk_histories_replayed", len(hists))
     n = 0
     for cap in (1, 2, 3, 0):
-        r = lru_model(cap, 5 if thorough else 4)
+        # capacity 2 needs five operations to tell a refreshed entry from a stale one (set a, set b, set a, set c, get a)
+        r = lru_model(cap, 5 if thorough or cap == 2 else 4)
         if r.violation or not r.ok:
             raise RuntimeError(f"LRUCache.tla violated {r.violation}")
         ctx.add_tlc(result=r)
@@ -194,6 +195,12 @@ def cross_graph_cases():
     def fgate(fb):
         return IR.route("G", ["x"], ["A", "B"], [[IR.NONE]], cache=True, fid="shared_fb", tname="FB", fallback=fb)
     out.append((IR.prog("top", [fgate("A"), na, nb]), IR.prog("top", [fgate("B"), na, nb]), [["x", "in.x"]], "shared-func/gate-different-fallback"))
+    # two definitions with the SAME source text that capture different values (a closure cell / a default evaluated
+    # at definition time): functions returned by one file-defined factory
+    for kind in ("cell", "default"):
+        a = IR.func("A", ["x"], ["p"], cache=True, fid=f"clo_{kind}_1", tname="CLO1", closure=[kind, "k1"])
+        b = IR.func("A", ["x"], ["p"], cache=True, fid=f"clo_{kind}_2", tname="CLO2", closure=[kind, "k2"])
+        out.append((IR.prog("top", [a]), IR.prog("top", [b]), [["x", "in.x"]], f"same-source/captured-{kind}-differs"))
     return out
 
 
@@ -354,7 +361,7 @@ def run_engine(ctx, thorough, rng):
                         klass = "not-transparent"
                         if any("object object" in str(v) for v in o["values"].values()):
                             klass = "sentinel-leaks-from-cache"
-                        elif "shared-func" in j["_tag"]:
+                        elif "shared-func" in j["_tag"] or "same-source" in j["_tag"]:
                             klass = "entry-served-to-other-node:" + j["_tag"].split("/")[1]
                         ctx.violation(klass, wit, f"run {k} on {bname} cache: status/values {o['status']} {o['values']} differ from the uncached run {rf['status']} {rf['values']}")
                         break
@@ -363,7 +370,8 @@ def run_engine(ctx, thorough, rng):
                         break
                     if bname == "memory":
                         # invocation counts per function = the specification's (not invoked again while retained; re-invoked after eviction)
-                        cm, co = fn_counts(mr["calls"], jc["prog"]), fn_counts(o["calls"], jc["prog"])
+                        which = jc["alt"] if jc["seq"][k].endswith("@2") else jc["prog"]        # the graph this run used
+                        cm, co = fn_counts(mr["calls"], which), fn_counts(o["calls"], which)
                         cm = {k2.replace("path:", ""): v for k2, v in cm.items()}
                         if cm != co:
                             klass = "invoked-again-while-retained" if any(co.get(x, 0) > cm.get(x, 0) for x in co) else "served-without-entry"
